@@ -621,7 +621,26 @@ fn client_handler<State>(
 
                         response
                     }
-                    None => error_handler(StatusCode::NotFound),
+                    None => {
+                        // The same headers as any other response, so that the 404 is self-delimiting
+                        let mut response = error_handler(StatusCode::NotFound)
+                            .with_header(HeaderType::Date, DateTime::now().to_string())
+                            .with_header(HeaderType::Server, "Humphrey")
+                            .with_header(
+                                HeaderType::Connection,
+                                match keep_alive {
+                                    true => "Keep-Alive",
+                                    false => "Close",
+                                },
+                            );
+
+                        response
+                            .headers
+                            .add(HeaderType::ContentLength, response.body.len().to_string());
+                        response.version = request.version.clone();
+
+                        response
+                    }
                 }
             }
             Ok(request) => {
